@@ -11,9 +11,10 @@ for id in $ids; do
   for chk in $(python3 -c "import json;print(' '.join(json.load(open('$m')).get('caught_by',[])))"); do
     out=$(tools/mutrun.sh $PWD/$patch $chk 2>&1)
     if echo "$out" | grep -q "^VIOLATION property=$chk"; then caught="$chk"; break; fi
+    if echo "$out" | grep -q "PATCH DOES NOT APPLY"; then caught="no(PATCH-DOES-NOT-APPLY:port-it)"; fi
   done
   echo "$id: caught_by=$caught"
-  [ "$caught" = no ] && rc=1
+  case "$caught" in no*) rc=1;; esac
 done
 rm -rf replays/mut
 exit $rc
